@@ -26,7 +26,7 @@ TYPES = ['X', 'Xm', 'V', 'H']
 
 
 def sk(t):
-    return re.sub(r'#[0-9.]+', '', show(t))
+    return re.sub(r'#\d+\.\d+', '', show(t))
 
 
 def ev(t, env):
